@@ -434,6 +434,9 @@ class Balancer:
     @staticmethod
     def _balance_zeroext(truism):
         num_zeroes, inner = truism.args[0].args
+        if truism.op in {"SGE", "SLE", "SGT", "SLT"}:
+            # the narrower value has a different sign bit: signed order is not preserved
+            return truism
         other_side = truism.args[1][len(truism.args[1]) - 1 : len(truism.args[1]) - num_zeroes]
 
         if claripy.backends.vsa.is_true(other_side == 0):
@@ -459,6 +462,9 @@ class Balancer:
     def _balance_extract(truism):
         high, low, inner = truism.args[0].args
         inner_size = len(inner)
+        if truism.op in {"SGE", "SLE", "SGT", "SLT"}:
+            # the wider value has a different sign bit: signed order is not preserved
+            return truism
 
         if high < inner_size - 1:
             left_msb = inner[inner_size - 1 : high + 1]
@@ -524,6 +530,9 @@ class Balancer:
     def _balance_concat(truism):
         size = len(truism.args[0])
         left_msb = truism.args[0].args[0]
+        if truism.op in {"SGE", "SLE", "SGT", "SLT"}:
+            # the narrower value has a different sign bit: signed order is not preserved
+            return truism
         right_msb = truism.args[1][size - 1 : size - len(left_msb)]
 
         if claripy.backends.vsa.is_true(left_msb == 0) and claripy.backends.vsa.is_true(right_msb == 0):
